@@ -304,6 +304,7 @@ impl<'a> Gen<'a> {
                 let v = *self.rng.pick(&s);
                 self.st_used_y = true;
                 self.st_no_y = true;
+                self.st_no_calls = true; // (and no call next to it: known finding y_scratch_with_call)
                 self.st_scratch_ok = false; // one use of the Y scratch per statement
                 if self.rng.chance(1, 2) && len == 256 {
                     return Expr::Lv(LV::Var(v));
@@ -365,6 +366,7 @@ impl<'a> Gen<'a> {
             if self.rng.chance(1, 3) && self.st_scratch_ok && !self.st_used_y && !self.st_in_cond {
                 self.st_used_deref = true;
                 self.st_no_y = true;
+                self.st_no_calls = true;
                 self.st_scratch_ok = false;
                 return Expr::Lv(LV::Deref(p));
             }
